@@ -88,6 +88,9 @@ func siblingCompare(r *R, rule, rel string, fns []*ssa.Function, skip map[string
 		}
 		ref := refs[name]
 		n++
+		if os.Getenv("FPCHECK_LIST_SIB") != "" {
+			println("SIBFN", rule, name)
+		}
 		o := r.Ob(rule, "sibling:"+name).At(fn.Pos())
 		if ref == nil {
 			o.Fail("%s %s has no counterpart in the upstream reference (%s)", what, name, c.Cfg.Refs[rel])
@@ -196,7 +199,14 @@ var minSiblings = map[string]int{"C09": 3, "C15": 3}
 var propFuncs = map[string][]string{
 	"C08": {`^\(\*http2\.pipe\)`, `^\(\*http2\.dataBuffer\)`, `^http2\.(getDataBufferChunk|putDataBufferChunk)$`, `^\(\*http2\.writeData\)`, `^\(\*http2\.writeResHeaders\)`, `^http2\.(encodeHeaders|encKV|splitHeaderBlock|writeEndsStream)`,
 		`^\(\*http2\.responseWriter(State)?\)`, `^\(\*http2\.requestBody\)`, `^\(\*http2\.serverConn\)\.(writeDataFromHandler|writeFrameFromHandler|writeHeaders|write100ContinueHeaders|newWriterAndRequest|newWriterAndRequestNoBody|newResponseWriter|processData|writeFrameAsync|wroteFrame|runHandler|writeFrame|scheduleFrameWrite|startFrameWrite|resetStream|closeStream|handlerDone|processSettings|processSetting|processSettingInitialWindowSize|processWindowUpdate|noteBodyRead|noteBodyReadFromHandler|sendWindowUpdate|sendWindowUpdate32)$`, `^\\(\\*http2\\.outflow\\)`,
-		`^\(\*http2\.stream\)\.(endStream|copyTrailersToHandlerRequest|processTrailerHeaders)$`, `^http2\.(checkWriteHeaderCode|cloneHeader|foreachHeaderElement)$`, `^\(\*http2\.writeQueue\)`, `^\(http2\.FrameWriteRequest\)\.Consume$`},
+		`^\(\*http2\.stream\)\.(endStream|copyTrailersToHandlerRequest|processTrailerHeaders)$`, `^http2\.(checkWriteHeaderCode|cloneHeader|foreachHeaderElement)$`, `^\(\*http2\.writeQueue\)`, `^\(http2\.FrameWriteRequest\)\.Consume$`,
+		// the buffered connection writer every frame goes through, and which statuses may carry a body
+		`^\(\*http2\.bufferedWriter\)`, `^\(\*http2\.bufferedWriterTimeoutWriter\)`, `^http2\.(writeWithByteTimeout|bodyAllowedForStatus|mustUint31|newBufferedWriter|httpCodeString)$`,
+		// small helpers on the same path: header name folding and the common-header tables, the sorter that orders response
+		// headers, the body's close waiter, the chunk writer, the connection-level accessors
+		`^http2\.(asciiEqualFold|asciiToLower|isASCIIPrint|lower|canonicalHeader|buildCommonHeaderMaps|buildCommonHeaderMapsOnce|errno|serverConnBaseContext)$`,
+		`^\(\*http2\.sorter\)`, `^\(\*?http2\.closeWaiter\)`, `^\(http2\.chunkWriter\)`, `^\(\*http2\.serverConn\)\.(Flush|Framer|CloseConn|maxHeaderListSize|rejectConn)$`,
+		`^\(\*http2\.serverInternalState\)`, `^\(\*http2\.ServeConnOpts\)`},
 	"C09": {`^\(\*http2\.serverConn\)\.(newWriterAndRequest|newWriterAndRequestNoBody|canonicalHeader)$`},
 	// the User-Agent the probe predicate sees over HTTP/2 is the one the client sent: the request's header map is built
 	// as upstream builds it
@@ -208,8 +218,10 @@ var propFuncs = map[string][]string{
 	"C10": {`^http2\.(getDataBufferChunk|putDataBufferChunk)$`, `^\(\*http2\.dataBuffer\)`, `^http2\.(parse|read)`, `^\(\*http2\.Framer\)\.(ReadFrame|readMetaFrame|checkFrameOrder|maxHeaderStringLen|maxHeaderListSize)`, `^\(\*http2\.serverConn\)\.(readFrames|writeFrameAsync|serve|notePanic|runHandler|sendServeMsg|readPreface|processFrameFromReader|setConnState|onSettingsTimer|onIdleTimer|onReadIdleTimer|onShutdownTimer|handlePingTimer)$`,
 		`^\(\*http2\.Server\)\.(ServeConn|serveConn)$`, `^\(\*http2\.stream\)\.(onReadTimeout|onWriteTimeout)$`, `\)\.(writeFrame|staysWithinBuffer|writeHeaderBlock)$`, `^\(\*http2\.(SettingsFrame|MetaHeadersFrame|HeadersFrame|DataFrame|FrameHeader)\)`, `^http2\.(splitHeaderBlock|terminalReadFrameError|isClosedConnError)`},
 	"C11": {`^\(\*http2\.serverConn\)\.(serve|readFrames|writeFrameAsync|closeAllStreamsOnConnClose|stopShutdownTimer|closeStream|onSettingsTimer|onIdleTimer|onReadIdleTimer|onShutdownTimer|handlePingTimer|sendServeMsg|readPreface|startGracefulShutdown|startGracefulShutdownInternal|goAway|shutDownIn|scheduleFrameWrite|wroteFrame|processHeaders|newStream|runHandler|handlerDone|writeFrameFromHandler|writeDataFromHandler|writeHeaders|noteBodyReadFromHandler)$`,
-		`^\(\*http2\.Server\)\.(ServeConn|serveConn|afterFunc|newTimer|now|markNewGoroutine)$`, `^\(\*http2\.stream\)\.(onReadTimeout|onWriteTimeout)$`, `^\(http2\.timeTimer\)`, `^\(\*http2\.responseWriter\)\.(SetReadDeadline|SetWriteDeadline|CloseNotify|handlerDone)`, `^http2\.(h1ServerKeepAlivesDisabled|configFromServer|fillNetHTTPServerConfig|setConfigDefaults|setDefault)`},
-	"C12": {`^\(\*http2\.(outflow|inflow)\)`, `^http2\.takeInflows$`, `^\(http2\.FrameWriteRequest\)\.Consume$`, `^\(\*http2\.writeQueue\)\.consume$`,
+		`^\(\*http2\.Server\)\.(ServeConn|serveConn|afterFunc|newTimer|now|markNewGoroutine)$`, `^\(\*http2\.stream\)\.(onReadTimeout|onWriteTimeout)$`, `^\(http2\.timeTimer\)`, `^\(\*http2\.responseWriter\)\.(SetReadDeadline|SetWriteDeadline|CloseNotify|handlerDone)`, `^http2\.(h1ServerKeepAlivesDisabled|configFromServer|fillNetHTTPServerConfig|setConfigDefaults|setDefault)`,
+		// the per-byte write timeout every frame write goes through
+		`^http2\.writeWithByteTimeout$`, `^\(\*http2\.bufferedWriter(TimeoutWriter)?\)`, `^http2\.ConfigureServer$`},
+	"C12": {`^\(\*http2\.(outflow|inflow)\)`, `^http2\.(takeInflows|mustUint31)$`, `^\(http2\.FrameWriteRequest\)\.Consume$`, `^\(\*http2\.writeQueue\)\.consume$`,
 		`^\(\*http2\.serverConn\)\.(processData|processWindowUpdate|processSettingInitialWindowSize|processSetting|processSettings|sendWindowUpdate|sendWindowUpdate32|noteBodyRead|noteBodyReadFromHandler|closeStream|newStream|serve|scheduleFrameWrite|startFrameWrite|wroteFrame|writeFrame|resetStream)$`, `^\(\*http2\.Server\)\.serveConn$`,
 		`^\(\*http2\.requestBody\)\.Read$`, `^\(\*http2\.clientStream\)\.(awaitFlowControl|writeRequestBody)$`, `^\(\*http2\.clientConnReadLoop\)\.(processData|processWindowUpdate|processSettingsNoWrite)`, `^\(http2\.transportResponseBody\)`, `^\(\*http2\.ClientConn\)\.addStreamLocked$`, `^\(\*http2\.Transport\)\.newClientConn$`},
 	"C13": {`^\(\*http2\.serverConn\)\.(processFrameFromReader|processHeaders|processData|processResetStream|processPriority|processSettings|processSetting|processSettingInitialWindowSize|processPing|processGoAway|processWindowUpdate|state|checkPriority|scheduleHandler|handlerDone|newStream|closeStream|goAway|resetStream|newWriterAndRequest|newWriterAndRequestNoBody|scheduleFrameWrite|upgradeRequest|startPush|countError|curOpenStreams)`,
